@@ -38,9 +38,11 @@ def alloc_masks(l3):
         for n in ds:
             ms.append({k: (k != n) for k in ds})
             ms.append({k: (k == n) for k in ds})
-    # dedupe
+    # dedupe; drop masks the representation invariant excludes (see L3.never_null)
     out = []
     for m in ms:
+        if any(not m[n] for n in getattr(l3, 'never_null', ())):
+            continue
         if m not in out:
             out.append(m)
     return out
